@@ -13,3 +13,13 @@ func TestWorker(t *testing.T) {
 	Cleanup()
 	os.Exit(rc)
 }
+
+// TestRaceSweep is the worker of the race-sweep phase (binary built with
+// -race, GOMAXPROCS 4): several clients of one node send in the same window so
+// that connection handlers and the apply loop of a node truly run in parallel.
+func TestRaceSweep(t *testing.T) {
+	env := core.ReadEnv()
+	rc := core.WorkerMain(env, &Engine{T: t, Race: true, TestName: "TestRaceSweep"})
+	Cleanup()
+	os.Exit(rc)
+}
